@@ -220,6 +220,11 @@ def enumerate_blocks(tier):
     for shape in two:
         for k, (a, b) in enumerate(itertools.product(R, repeat=2)):
             yield (), block_from(shape, (a, b), k % 2 == 1)
+    else:
+        # quick: every triple of bound edits (one attribute changed repeatedly inside one block)
+        bops = [o for o in R if o[0] in ("lb", "ub", "bounds", "knock_out")]
+        for k, ops3 in enumerate(itertools.product(bops, repeat=3)):
+            yield (), block_from("EoooX", ops3, k % 2 == 1)
     if three:
         # deviation-bounded third operation: all triples where at least one op is a bounds edit
         simple = [o for o in R if o[0] in ("lb", "ub", "bounds", "knock_out")][:6]
